@@ -48,7 +48,7 @@ func toIdP(c *Ctx, r *env.HTTPResult) bool {
 	return r.Status == 302 && strings.HasPrefix(r.Header.Get("Location"), c.W.IdP.Issuer+"/auth")
 }
 
-var c13Failures = []string{"none", "unknown-state", "expired-state", "refuse", "noidtoken", "badsig", "wrongiss", "wrongaud", "expired", "noclaim", "5xx", "garbage", "code-replay", "idp-down"}
+var c13Failures = []string{"none", "unknown-state", "expired-state", "refuse", "noidtoken", "badsig", "wrongiss", "wrongaud", "expired", "noclaim", "5xx", "garbage", "code-replay", "idp-down", "claim-not-a-name"}
 
 // runC13: callback failure point x session store x (first callback | existing session),
 // followed by identity persistence and session-cookie mutations.
@@ -65,6 +65,28 @@ func runC13(c *Ctx) {
 	claimName := []string{"preferred_username", "unique_name", "upn", "username"}[c.T.Choose(4)]
 	userName := []string{"alice", "bob@corp.test", "Zoë", "x"}[c.T.Choose(4)]
 	user := &env.IdPUser{Sub: "sub-" + userName, Claims: map[string]any{claimName: userName}}
+	// somebody else may be signed in and active on the same gateway all along
+	var other *env.Browser
+	otherName := "olga"
+	if c.T.Bool(1, 2) {
+		other = c.W.NewBrowser("b0", "10.2.0.9:51009")
+		if ok, cbo := other.Login("/connect", &env.IdPUser{Sub: "sub-olga", Claims: map[string]any{"preferred_username": otherName}}); !ok {
+			c.S.Fail("C13", "valid-login-not-authenticated", "login of another user failed: callback %d", cbo.Status)
+			return
+		}
+		c.S.Count("probe.another_user_signed_in")
+	}
+	otherActive := func(when string) bool {
+		if other == nil {
+			return true
+		}
+		r := other.Get("/connect")
+		if !gotFile(r) || env.ParseRDP(r.Body).Values["username"] != otherName {
+			c.S.Fail("C13", "identity-changed", "the other signed-in user (%s) %s: status %d, user %q", otherName, when, r.Status, env.ParseRDP(r.Body).Values["username"])
+			return false
+		}
+		return true
+	}
 	b := c.W.NewBrowser("b1", "10.2.0.5:51000")
 	if existing {
 		// the session already exists (an earlier visit that did not log in)
@@ -74,6 +96,7 @@ func runC13(c *Ctx) {
 		}
 	}
 	state, r0 := b.StartLogin("/connect")
+	stateIssued := time.Now()
 	if state == "" || !toIdP(c, r0) {
 		c.S.Fail("C13", "unauthenticated-not-redirected", "visit without login: expected a redirect to the provider, got %d %q", r0.Status, r0.Header.Get("Location"))
 		return
@@ -97,22 +120,47 @@ func runC13(c *Ctx) {
 		delete(c.W.IdP.Codes, code)
 	case "idp-down":
 		c.W.IdP.Down = true
+	case "claim-not-a-name":
+		// every candidate claim is present but none is a string: there is no user name
+		for _, k := range []string{"preferred_username", "unique_name", "upn", "username"} {
+			user.Claims[k] = []any{nil, []any{}, map[string]any{}, false}[c.T.Choose(4)]
+		}
+		code = c.W.IdP.NewCode(user)
 	default:
 		c.W.IdP.TokenFault = failure
 	}
-	if failure == "none" && c.T.Bool(1, 3) {
+	if (failure == "none" && c.T.Bool(1, 3)) || (failure != "none" && failure != "expired-state" && c.T.Bool(1, 2)) {
 		// a state that is old but still inside the two minutes
 		c.S.Advance(time.Duration(c.T.Choose(115)) * time.Second)
 	}
 	cb := b.Get("/callback?state=" + url.QueryEscape(cbState) + "&code=" + url.QueryEscape(code))
 	c.W.IdP.Down = false
 	c.W.IdP.TokenFault = ""
+	if !otherActive("after this browser's callback") {
+		return
+	}
 	after := b.Get("/connect")
 	sample := fmt.Sprintf("store=%s existing-session=%v failure=%s claim=%s user=%q: callback=%d connect-after=%d", store, existing, failure, claimName, userName, cb.Status, after.Status)
 	c.S.Count("probe.failure." + failure)
 	if failure != "none" {
 		if gotFile(after) || !toIdP(c, after) && after.Status < 400 {
 			c.S.Fail("C13", "authenticated-after-failed-callback:"+failure+":"+store, "%s: a callback that failed at %q left the session authenticated (a connection file was issued: %v)", sample, failure, gotFile(after))
+		}
+		// a retry with a code the provider accepts, made when the state is older than two
+		// minutes (counted from when the gateway issued it), must not authenticate either
+		if c.S.Viol == nil && failure != "unknown-state" && failure != "expired-state" && c.T.Bool(1, 2) {
+			age := time.Since(stateIssued)
+			if age < 124*time.Second {
+				c.S.Advance(124*time.Second - age + time.Duration(c.T.Choose(100))*time.Second)
+			}
+			good := &env.IdPUser{Sub: "sub-" + userName, Claims: map[string]any{claimName: userName}}
+			cb2 := b.Get("/callback?state=" + url.QueryEscape(state) + "&code=" + url.QueryEscape(c.W.IdP.NewCode(good)))
+			after2 := b.Get("/connect")
+			sample += fmt.Sprintf("; retry with the same state %ds after it was issued: callback=%d connect-after=%d", int(time.Since(stateIssued).Seconds()), cb2.Status, after2.Status)
+			if gotFile(after2) {
+				c.S.Fail("C13", "authenticated-with-expired-state:after-"+failure+":"+store, "%s: the state was older than two minutes", sample)
+			}
+			c.S.Count("probe.retry_after_state_expiry")
 		}
 		c.Res.Reach = true
 		c.Res.CaseKey = fmt.Sprintf("%s/%s/%v/%s/%s/%d", failure, store, existing, claimName, userName, cb.Status)
@@ -142,6 +190,22 @@ func runC13(c *Ctx) {
 			c.S.Fail("C13", "identity-changed", "%s: later request names user %q", sample, u)
 			return
 		}
+	}
+	// a visitor who never signed in stays unauthenticated while signed-in users are active
+	if c.T.Bool(1, 2) {
+		v := c.W.NewBrowser("b3", "10.2.0.7:51003")
+		v.Get("/connect")
+		for i := 0; i < 1+c.T.Choose(2) && c.S.Viol == nil; i++ {
+			b.Get("/connect")
+			if !otherActive("while a visitor browses") {
+				return
+			}
+			if r := v.Get("/connect"); gotFile(r) || !toIdP(c, r) {
+				c.S.Fail("C13", "visitor-authenticated", "%s: a browser that never signed in got %d (file: %v, user %q) after requests of signed-in users", sample, r.Status, gotFile(r), env.ParseRDP(r.Body).Values["username"])
+				return
+			}
+		}
+		c.S.Count("probe.visitor_interleaved")
 	}
 	// altered or foreign cookies never authenticate
 	good := b.Jar["RDPGWSESSION"]
@@ -513,6 +577,21 @@ func runC12(c *Ctx) {
 			c.W.AddHost(host, [][]byte{[]byte("welcome")})
 		}
 		tr := []string{"ws", "legacy"}[c.T.Choose(2)]
+		if c.T.Bool(1, 4) {
+			// history: a first presentation falls into an outage of the identity provider and
+			// is refused; once the provider is back the same file must work
+			c.W.IdP.UserinfoFault = []string{"5xx", "refuse", "garbage"}[c.T.Choose(3)]
+			p0 := &TunPlan{Name: "t9", Transport: tr, From: b.From, XFF: b.XFF, ConnID: "{C12-0009}", CloseAfter: -1}
+			p0.Pkts = []CPkt{PHandshake(ServerCapsOf(true, false), 1, 0), PTunnelCreate(tok, false)}
+			t0 := StartTunnels(c, []*TunPlan{p0})
+			RunTunnels(c, t0, 3000)
+			c.S.Draining = false
+			t0[0].Client.CloseAll(false)
+			c.W.IdP.UserinfoFault = ""
+			c.S.Advance(time.Duration(1+c.T.Choose(20)) * time.Second)
+			descr += " first-presentation-during-idp-outage"
+			c.S.Count("fault.idp.outage_at_first_presentation")
+		}
 		p := &TunPlan{Name: "t0", Transport: tr, From: b.From, XFF: b.XFF, ConnID: "{C12-0000}", AllowedHost: host, CloseAfter: -1}
 		p.Pkts = []CPkt{PHandshake(ServerCapsOf(true, false), 1, 0), PTunnelCreate(tok, true), PTunnelAuth("n"), PChannel(host, HostAllowed), PData([]byte("ping"))}
 		tuns := StartTunnels(c, []*TunPlan{p})
